@@ -270,6 +270,10 @@ def judge_large_batch(N):
 
 
 def run(ctx):
+    from .. import pipeline
+
+    # wiring: the run's stored columns are this stage applied to the run's stored columns (see nssmc/pipeline.py)
+    pipeline.run_in(ctx, ['radio'], ('A', 'B', 'C'))
     tier = ctx.tier
     for N in ((16392,) if tier == "quick" else (8193, 16392, 32800, 65540)):
         ctx.tick(3 * N, ("large_batch", N))
@@ -337,6 +341,10 @@ def run(ctx):
 
 
 def replay(case):
+    if isinstance(case, dict) and case.get("kind") == "pipeline":
+        from .. import pipeline
+
+        return pipeline.replay(case)
     k = case["kind"]
     if k == "large":
         return [(c, e, o) for c, what, e, o in judge_large_batch(case["N"])]
